@@ -412,6 +412,19 @@ def fn_catalogue():
         ("divide_const_first", lambda y: jnp.divide(1.5, y + 3.0), [A(4, 3)]),
         ("three_operands", lambda x, y, z: jnp.where(x > 0, jnp.divide(x, y + 3.0), jnp.subtract(z, y)),
          [A(4, 3), A(4, 3), A(4, 3)]),
+        # substitutes that carry their OWN differentiation rule (not a forwarded one): every operand that can
+        # carry a tangent does so, incl. the fall-through `default` of select (elements matching no condition)
+        ("select_default", lambda x, y: jnp.select([x > 0.5, x < -0.5], [x * 2.0, -x], default=y * 3.0),
+         [A(4, 3), A(4, 3)]),
+        ("select_const_default", lambda x: jnp.select([x > 0.5, x < -0.5], [x * 2.0, -x], default=1.5), [A(4, 3)]),
+        ("prod_axis", lambda x: jnp.prod(x + 2.5, axis=-1), [A(4, 3)]),
+        ("take_rows", lambda x: jnp.take(x, jnp.array([3, 0, 3]), axis=0) * 2.0, [A(4, 3)]),
+        ("celu", lambda x: jax.nn.celu(x, alpha=0.7), [A(4, 3)]),
+        ("selu", lambda x: jax.nn.selu(x), [A(4, 3)]),
+        ("elu", lambda x: jax.nn.elu(x, alpha=1.3), [A(4, 3)]),
+        ("leaky_relu", lambda x: jax.nn.leaky_relu(x, negative_slope=0.2), [A(4, 3)]),
+        ("softsign", lambda x: jax.nn.soft_sign(x), [A(4, 3)]),
+        ("mish", lambda x: jax.nn.mish(x), [A(4, 3)]),
     ] + [
         (f"{rn}_axis{('N' if ax is None else ax)}_{'keep' if kd else 'drop'}",
          # NB: look the function up at call time — conversion patches the attribute `jax.numpy.<name>`
@@ -665,7 +678,11 @@ ALWAYS = [("tanh", "jit_called_twice"), ("mlp", "jit_nested"), ("minimum_lowrank
           ("sum_axis0_keep", "vmap_in_axes_1"), ("sum_axisN_keep", "vmap_in_axes_2"),
           ("max_axis0_keep", "vmap_in_axes_2"), ("mean_axis0_keep", "vmap_in_axes_1_out_last"),
           ("min_axis-1_keep", "vmap_in_axes_1"), ("sum_axis0_drop", "vmap_in_axes_2"),
-          ("amax_axisN_keep", "vmap_in_axes_1"), ("sum_axis-1_drop", "vmap_in_axes_2_all")]
+          ("amax_axisN_keep", "vmap_in_axes_1"), ("sum_axis-1_drop", "vmap_in_axes_2_all"),
+          # own differentiation rules
+          ("select_default", "jvp"), ("select_default", "grad_argnums_last"), ("select_const_default", "jvp"),
+          ("select_default", "vjp_wrt_last"), ("prod_axis", "grad"), ("take_rows", "grad"), ("celu", "grad"),
+          ("selu", "jvp"), ("elu", "grad"), ("leaky_relu", "jvp"), ("softsign", "grad"), ("mish", "jvp")]
 
 
 def explore(chk: Check, rng: common.Rng, thorough: bool, budget_s: float) -> list[dict]:
